@@ -820,7 +820,8 @@ fn judge(c: &Case, e: &Outcome, o: &Obs) -> Verdicts {
     // ---- DO=1 on a signed zone (RFC 4035 §3.1.1: RRSIGs accompany every authoritative RRset in
     // answer and authority; §3.1.3: NSEC with No Data / Name Error / wildcard(-no-data) answers;
     // RFC 5155 §7.2 likewise with NSEC3). Presence only.
-    if signed && c.query.do_bit() && out.v.is_empty() {
+    // (referrals always carry the AA deviation on this tree; it does not disturb these checks)
+    if signed && c.query.do_bit() && out.v.iter().all(|(r, _, _)| r == "aa-on-referral") {
         for i in 0..2 {
             let sec_name = ["answer", "authority"][i];
             let rrsets: BTreeSet<(Name, u16)> = o.sec[i].iter().map(|r| (r.0.clone(), r.1)).collect();
@@ -1105,7 +1106,7 @@ fn main() {
     let apex = refzone::default_apex();
     let mut qnames = refzone::query_names(&apex, cfg.depth, refzone::FRESH_LABEL);
     qnames.extend(refzone::out_of_zone_names());
-    let n_zones = ctx.budget(1600, 160_000);
+    let n_zones = ctx.budget(1600, 100_000);
     let mut r = Runner { rep: &mut rep, rt, reported: Default::default() };
     for zi in 0..n_zones {
         let z = refzone::gen_zone(&mut rng, &cfg);
